@@ -266,7 +266,7 @@ pub fn run_history(c: &Case, o: &mut Outcome) -> Result<(), Failure> {
     Ok(())
 }
 
-/// the 17-letter alphabet of the bounded-exhaustive enumeration
+/// the 18-letter alphabet of the bounded-exhaustive enumeration
 pub fn alphabet() -> Vec<Op> {
     vec![
         Op::AddIn,
@@ -286,6 +286,7 @@ pub fn alphabet() -> Vec<Op> {
         Op::Sighash { flag: 0x41, idx: 0 },
         Op::Sighash { flag: 0xc1, idx: 0xffff },
         Op::Sighash { flag: 0x42, idx: 0 },
+        Op::Sighash { flag: 0x43, idx: 0 },
     ]
 }
 
@@ -318,7 +319,7 @@ impl Property for C04 {
     const ID: &'static str = "C04";
 
     fn rule() -> String {
-        "Model-based histories over the transaction mutation API (add/prepend/insert/set input and output, add_inputs/add_outputs, set_version, set_nlocktime, clone, adopting the clone a setter returns) interleaved with sighash_preimage and sign calls of all fourteen flag values; every inserted element is fresh so a stale hash differs. Bounded-exhaustive: every sequence of length <= 4 (quick) / <= 5 (thorough) over a 17-letter alphabet (8 whole-element mutators, 3 single-field replacements through set_input/set_output — same outpoint with another sequence, same txid with another vout, same script with another value —, set_version, set_nlocktime, clone, one sighash per cache-filling class 0x41/0xc1/0x42) from a 2-in/2-out start; plus random histories of length <= 60. Oracle: after every step, on a clone, sighash_preimage for each of the fourteen flags and each input index equals the result on Transaction::from_bytes(tx.to_bytes()) (same bytes or both Err); the history's own sighash/sign results are compared the same way. Non-trivial = the history fills a cache slot, later mutates the hashed part, later reads that slot again; distinct by hash of the serialised history.".into()
+        "Model-based histories over the transaction mutation API (add/prepend/insert/set input and output, add_inputs/add_outputs, set_version, set_nlocktime, clone, adopting the clone a setter returns) interleaved with sighash_preimage and sign calls of all fourteen flag values; every inserted element is fresh so a stale hash differs. Bounded-exhaustive: every sequence of length <= 4 (quick) / <= 5 (thorough) over a 18-letter alphabet (8 whole-element mutators, 3 single-field replacements through set_input/set_output — same outpoint with another sequence, same txid with another vout, same script with another value —, set_version, set_nlocktime, clone, one sighash per cache-relevant class 0x41/0xc1/0x42/0x43) from a 2-in/2-out start; plus random histories of length <= 60. Oracle: after every step, on a clone, sighash_preimage for each of the fourteen flags and each input index equals the result on Transaction::from_bytes(tx.to_bytes()) (same bytes or both Err); the history's own sighash/sign results are compared the same way. Non-trivial = the history fills a cache slot, later mutates the hashed part, later reads that slot again; distinct by hash of the serialised history.".into()
     }
 
     fn assumptions() -> Vec<String> {
@@ -330,7 +331,7 @@ impl Property for C04 {
     }
 
     fn exhaustive_spaces(tier: Tier) -> Vec<String> {
-        vec![format!("all operation sequences of length <= {} over the 17-letter alphabet from a 2-input/2-output transaction", tier.pick(4, 5))]
+        vec![format!("all operation sequences of length <= {} over the 18-letter alphabet from a 2-input/2-output transaction", tier.pick(4, 5))]
     }
 
     fn exhaustive(tier: Tier, shard: usize, nshards: usize, f: &mut dyn FnMut(Case) -> bool) {
